@@ -24,4 +24,10 @@ def measJ (j : Json) : Except String Json := do
   let back := replayMeas (fun (i : Nat) (_ : Rat) => i + 1) ef dt 0 m
   pure <| Json.mkObj [("measurement", jRats m), ("recovered", jRats back.2), ("nstates", (back.1.length : Nat))]
 
+/-- `{"dW": [increments], "calls": [step indices]}` → the values `W(t)` returns along that history -/
+def wienerCallsJ (j : Json) : Except String Json := do
+  let dW ← getRatList j "dW"
+  let calls ← getNatList j "calls"
+  pure <| jRats (runCalls (WState.call (fun k => dW.getD k 0)) ⟨0, 0⟩ calls)
+
 end Qv.Drv.C17
